@@ -49,6 +49,9 @@ impl ReadBackend for MemBe {
     fn location(&self) -> String {
         "mem".into()
     }
+    fn warmup_path(&self, tpe: FileType, id: &Id) -> String {
+        format!("{}/{}", tpe.dirname(), id.to_hex().as_str())
+    }
     fn list_with_size(&self, tpe: FileType) -> RusticResult<Vec<(Id, u32)>> {
         let t = tnum(tpe);
         Ok(self.map.read().unwrap().iter().filter(|((tt, _), _)| *tt == t).map(|((_, i), b)| (*i, b.len() as u32)).collect())
@@ -252,8 +255,237 @@ fn ops_case(line: &str) -> String {
     out.join(" | ")
 }
 
-fn e2e_case(_line: &str) -> String {
-    "todo".into()
+
+// ------------------------------------------------------------------------------- e2e
+// One seeded history of backup / forget / prune / check run twice from the same initial
+// repository: world A through handles without cache, world B alternately through a cached
+// handle (cache_dir = temp dir) and an uncached handle on the same store, with truncated /
+// extended / foreign / misplaced files planted in the cache directory between the steps.
+// Compared: the result of every step, the final snapshot trees, index blob statistics and
+// `check`.  After every step of the cached handle: the cache holds no snapshot / index file
+// (canonical path) that store B does not have with the same size (after `check`: no pack).
+// Line: `seed nsteps stray`.
+fn e2e_case(line: &str) -> String {
+    match e2e_inner(line) {
+        Ok(s) => s,
+        Err(e) => format!("error {e:#}").replace('\n', " "),
+    }
+}
+
+fn canonical_files(root: &Path, tpe: FileType) -> Vec<(Id, u64, PathBuf)> {
+    let mut v = Vec::new();
+    let d = root.join(tpe.dirname());
+    if let Ok(rd) = std::fs::read_dir(&d) {
+        for sub in rd.flatten() {
+            if !sub.path().is_dir() {
+                continue;
+            }
+            let sn = sub.file_name().to_string_lossy().to_string();
+            if let Ok(rd2) = std::fs::read_dir(sub.path()) {
+                for f in rd2.flatten() {
+                    let name = f.file_name().to_string_lossy().to_string();
+                    if is_hex64(&name) && name[..2] == sn && f.path().is_file() {
+                        v.push((Id::from_hex(&name).unwrap(), f.metadata().unwrap().len(), f.path()));
+                    }
+                }
+            }
+        }
+    }
+    v.sort();
+    v
+}
+
+/// canonical cache files of `tpe` that the store does not have with that size
+fn bad_entries(root: &Path, tpe: FileType, store: &dyn ReadBackend) -> Vec<String> {
+    let list: BTreeMap<Id, u32> = store.list_with_size(tpe).unwrap().into_iter().collect();
+    canonical_files(root, tpe)
+        .into_iter()
+        .filter(|(id, sz, _)| list.get(id).map(|s| u64::from(*s)) != Some(*sz))
+        .map(|(id, sz, _)| format!("{}/{}:{sz}", tpe.dirname(), &id.to_hex().as_str()[..8]))
+        .collect()
+}
+
+fn e2e_inner(line: &str) -> anyhow::Result<String> {
+    use rustic_core::{CheckOptions, LimitOption, PruneOptions, RepositoryOptions};
+    use verif_harness::e2e::*;
+    let mut t = Toks::new(line);
+    let (seed, nsteps, stray) = (t.u(), t.u(), t.u() == 1);
+    let mut r = SplitMix(seed);
+    let s0 = mem();
+    let (repo, key) = init_repo(s0.clone(), None, &small_pack_config(12_000, 1_500), &repo_opts())?;
+    drop(repo);
+    let a = Arc::new((*s0).clone());
+    let b = Arc::new((*s0).clone());
+    let cdir = tempfile::tempdir()?;
+    let mut copts = RepositoryOptions::default();
+    copts.no_cache = false;
+    copts.cache_dir = Some(cdir.path().to_path_buf());
+    let src = tempfile::tempdir()?;
+    let tp = TreeParams { max_entries: 14, max_depth: 3, max_file: 40_000, odd_names: false, symlinks: true, hardlinks: false };
+    materialize(src.path(), &gen_tree(&mut r, &tp))?;
+    let cache_root = |cdir: &Path| -> Option<PathBuf> {
+        std::fs::read_dir(cdir).ok()?.flatten().map(|e| e.path()).find(|p| p.is_dir())
+    };
+
+    let b_rec = RecBackend::new(b.clone(), "B");
+    b_rec.set_plan(FaultPlan { record_reads: true, ..FaultPlan::default() });
+    let mut out: Vec<String> = Vec::new();
+    let mut diffs: Vec<String> = Vec::new();
+    let mut stale: Vec<String> = Vec::new();
+    let (mut cached_steps, mut listing_checks, mut planted, mut bad_before_total) = (0u32, 0u32, 0u32, 0u32);
+
+    // one step on one store through one kind of handle
+    let run_step = |store: Arc<dyn WriteBackend>, opts: &RepositoryOptions, op: u64, arg: u64| -> anyhow::Result<String> {
+        let repo = open_repo(store, None, &key, opts)?;
+        Ok(match op {
+            0 => {
+                let (_repo, snap) = backup_dir(repo, src.path(), "src", None)?;
+                let s = snap.summary.as_ref().unwrap();
+                format!(
+                    "backup tree={} fn={} fc={} fu={} dn={} db={} tb={} bytes={}",
+                    snap.tree, s.files_new, s.files_changed, s.files_unmodified, s.dirs_new, s.data_blobs, s.tree_blobs, s.total_bytes_processed
+                )
+            }
+            1 => {
+                let mut snaps = repo.get_all_snapshots()?;
+                snaps.sort_by(|x, y| x.time.cmp(&y.time));
+                let keep = arg as usize;
+                let n = snaps.len().saturating_sub(keep);
+                let rm: Vec<_> = snaps[..n].iter().map(|s| s.id).collect();
+                let trees: Vec<String> = snaps[..n].iter().map(|s| s.tree.to_string()).collect();
+                repo.delete_snapshots(&rm)?;
+                format!("forget keep={keep} removed={}", trees.join(","))
+            }
+            2 => {
+                let mut p = PruneOptions::default();
+                p.keep_pack = rustic_core::jiff::Span::new();
+                p.keep_delete = rustic_core::jiff::Span::new();
+                p.max_unused = LimitOption::Size(bytesize::ByteSize(0));
+                p.instant_delete = arg == 1;
+                let plan = repo.prune_plan(&p)?;
+                let st = plan.stats.blobs_sum();
+                let res = format!("prune instant={} used={} unused={}", arg, st.used, st.unused);
+                repo.prune(&p, plan)?;
+                res
+            }
+            _ => {
+                let res = repo.check(CheckOptions::default().read_data(arg == 1))?;
+                format!("check read_data={} ok={}", arg, res.is_ok().is_ok())
+            }
+        })
+    };
+
+    for k in 0..nsteps {
+        let op = if k == 0 { 0 } else { [0, 0, 1, 2, 3][r.below(5) as usize] };
+        let arg = match op { 1 => 1 + r.below(2), _ => r.below(2) };
+        let use_cache = r.below(10) < 6;
+        // change the source a little before a backup
+        if op == 0 && k > 0 {
+            let c = Content::Random { seed: r.next(), len: r.below(20_000) as usize };
+            std::fs::write(src.path().join(format!("extra{}", r.below(3))), c.bytes())?;
+        }
+        // faults in the cache directory
+        if let Some(root) = cache_root(cdir.path()) {
+            if r.below(2) == 0 {
+                for tpe in [FileType::Snapshot, FileType::Index, FileType::Pack] {
+                    let files = canonical_files(&root, tpe);
+                    match r.below(4) {
+                        0 if !files.is_empty() => {
+                            let (_, sz, p) = &files[r.below(files.len() as u64) as usize];
+                            let d = std::fs::read(p)?;
+                            std::fs::write(p, &d[..(*sz as usize) / 2])?;
+                            planted += 1;
+                        }
+                        1 if !files.is_empty() && tpe != FileType::Pack => {
+                            let (_, _, p) = &files[r.below(files.len() as u64) as usize];
+                            let mut d = std::fs::read(p)?;
+                            d.extend_from_slice(b"junk");
+                            std::fs::write(p, d)?;
+                            planted += 1;
+                        }
+                        2 => {
+                            let id = id_from_u64(r.next() | 1);
+                            let hexs = id.to_hex();
+                            let d = root.join(tpe.dirname()).join(&hexs.as_str()[..2]);
+                            std::fs::create_dir_all(&d)?;
+                            std::fs::write(d.join(hexs.as_str()), Content::Random { seed: r.next(), len: 100 }.bytes())?;
+                            planted += 1;
+                        }
+                        _ => {}
+                    }
+                }
+            }
+            if stray {
+                // a 64-hex file outside the <xx>/ sub-directories: named like an existing snapshot
+                // (wrong size) and a foreign one in index/
+                if let Some((id, _)) = b.list_with_size(FileType::Snapshot)?.first() {
+                    let d = root.join("snapshots");
+                    std::fs::create_dir_all(&d)?;
+                    std::fs::write(d.join(id.to_hex().as_str()), b"x")?;
+                }
+                let d = root.join("index");
+                std::fs::create_dir_all(&d)?;
+                std::fs::write(d.join(id_from_u64(r.next() | 1).to_hex().as_str()), b"y")?;
+                planted += 2;
+            }
+        }
+        let ra = run_step(a.clone(), &repo_opts(), op, arg)?;
+        if use_cache {
+            if let Some(root) = cache_root(cdir.path()) {
+                for tpe in [FileType::Snapshot, FileType::Index] {
+                    bad_before_total += bad_entries(&root, tpe, b.as_ref()).len() as u32;
+                }
+            }
+        }
+        let _ = b_rec.take_log();
+        let rb = if use_cache { run_step(b_rec.clone(), &copts, op, arg)? } else { run_step(b.clone(), &repo_opts(), op, arg)? };
+        let listed: std::collections::BTreeSet<usize> =
+            b_rec.take_log().iter().filter(|o| o.kind == OpKind::List).map(|o| tnum(o.tpe)).collect();
+        if ra != rb {
+            diffs.push(format!("step {k}: uncached `{ra}` vs {} `{rb}`", if use_cache { "cached" } else { "mixed" }));
+        }
+        out.push(format!("{}{}", if use_cache { "C:" } else { "U:" }, ra.split(' ').next().unwrap()));
+        if use_cache {
+            cached_steps += 1;
+            let root = cache_root(cdir.path()).ok_or_else(|| anyhow::anyhow!("no cache directory was created"))?;
+            // the types this step listed through the cached handle (seen below the cache)
+            let mut types: Vec<FileType> =
+                [FileType::Snapshot, FileType::Index].into_iter().filter(|t| listed.contains(&tnum(*t))).collect();
+            if op == 3 {
+                types.push(FileType::Pack);
+            }
+            for tpe in types {
+                listing_checks += 1;
+                for e in bad_entries(&root, tpe, b.as_ref()) {
+                    stale.push(format!("step {k} ({}): {e}", ra.split(' ').next().unwrap()));
+                }
+            }
+        }
+    }
+    // final states
+    let fin = |store: Arc<dyn WriteBackend>| -> anyhow::Result<String> {
+        let repo = open_repo(store, None, &key, &repo_opts())?;
+        let mut trees: Vec<String> = repo.get_all_snapshots()?.iter().map(|s| s.tree.to_string()).collect();
+        trees.sort();
+        let inf = repo.infos_index()?;
+        let blobs: Vec<String> = inf.blobs.iter().map(|b| format!("{:?}:{}:{}", b.blob_type, b.count, b.data_size)).collect();
+        let ok = repo.check(CheckOptions::default().read_data(true))?.is_ok().is_ok();
+        Ok(format!("trees={} blobs={} check={ok}", trees.join(","), blobs.join(",")))
+    };
+    let (fa, fb) = (fin(a.clone())?, fin(b.clone())?);
+    if fa != fb {
+        diffs.push(format!("final: `{fa}` vs `{fb}`"));
+    }
+    Ok(format!(
+        "{} steps={} cached_steps={cached_steps} listing_checks={listing_checks} planted={planted} bad_before={bad_before_total} diffs={} stale={} final_check={} | {} | {}",
+        if diffs.is_empty() && stale.is_empty() { "ok" } else { "FAIL" },
+        out.join(","),
+        diffs.len(),
+        stale.len(),
+        fa.ends_with("check=true"),
+        diffs.join(" ;; "),
+        stale.join(" ;; ")
+    ))
 }
 
 fn main() {
